@@ -12,7 +12,7 @@ META = {
              'descriptor'),
     'required_obs': {'quick': ['frame-checked', 'c08-cast', 'c08-width1-2d', 'c08-element-limit>dimension',
                                'c08-user-dimension', 'c08-user-el-larger', 'c08-inconsistent-tried', 'c08-multi-frame',
-                               'c08-shared-channel', 'c08-channel-in-no-frame', 'c08-struct-aligned', 'c08-struct-view', 'c08-dataset-name-overlap']},
+                               'c08-shared-channel', 'c08-channel-in-no-frame', 'c08-struct-aligned', 'c08-struct-view', 'c08-dataset-name-overlap', 'c08-same-name-twice-in-frame']},
     'assumptions': ['an inconsistent user-supplied dimension / element limit may be rejected; only successful writes '
                     'are constrained'],
 }
@@ -26,6 +26,9 @@ def cases(tier, seed):
         yield {'stratum': 'struct-fastpath', 'index': k, 'kind': 'fastpath'}
     for k in range(60 if tier == 'quick' else 1500):
         yield {'stratum': 'dataset-name-overlap', 'index': k, 'kind': 'overlap'}
+    # a frame listing two channels of one name (copy numbers 0, 1), or one channel twice: refused, or descriptors and rows agree
+    for k in range(30 if tier == 'quick' else 600):
+        yield {'stratum': 'same-name-twice-in-frame', 'index': k, 'kind': 'dup'}
     i = 0
     for dt in gen.DTYPES:
         for cast in gen.DTYPES:
@@ -76,6 +79,18 @@ def run_case(case):
         classes = ['overlap:' + mode]
         inconsistent = False
         bump('c08-dataset-name-overlap')
+    elif case['kind'] == 'dup':
+        sp = gen.frame_spec(r, casts=False, nframes=r.choice([1, 2]), nch=r.choice([2, 3]), fills=('pos',), dataset_names=False)
+        frames = [o for o in sp['ops'] if o['op'] == 'frame']
+        refs = frames[0]['attrs']['channels']['$tuple']
+        mode = r.choice(['two-channels-one-name', 'one-channel-twice'])
+        if mode == 'two-channels-one-name':
+            sp['ops'][refs[-1]['$ref']]['name'] = sp['ops'][refs[0]['$ref']]['name']
+        else:
+            refs.append(dict(refs[r.randrange(len(refs))]))
+        classes = ['dup:' + mode]
+        inconsistent = True
+        bump('c08-same-name-twice-in-frame')
     elif case['kind'] == 'fastpath':
         sp = gen.fastpath_spec(r)
         classes = ['struct-' + (sp['write'].get('struct_variant') or 'packed')]
